@@ -19,7 +19,7 @@ F2Ok(e) == /\ e.ev = "op" /\ e.out = "ok"
                 IN ClearMargin(q, cs.A, cs.B, 1) => e.inres[i] = InOp(cs.op, q, cs.A, cs.B)
 (* e.again: the same two values were then passed to all four operations and to this one once more; the last result is the
    same set of rings as the first (every one of those calls is an instance of the property) *)
-Ok(e) == (IF cs.kind = "f1" THEN F1Ok(e) ELSE F2Ok(e)) /\ e.again
+Ok(e) == (IF cs.kind = "f1" THEN F1Ok(e) ELSE F2Ok(e)) /\ e.again /\ e.inputsame      \* (inputsame: the operands are still the values they were)
 Apply(e) == UNCHANGED cs
 Reset(e) == cs' = e
 Keep == UNCHANGED cs
